@@ -74,6 +74,8 @@ type c19Shared struct {
 	m, m2   *ordered.MapSA
 	pl      *pipeline.Pipeline
 	signed  []*pipeline.CommandStep
+	// wrapped: one shared SignedFielder per signed step (callers may keep and reuse these)
+	wrapped []*signature.CommandStepWithInvariants
 	penv    map[string]string
 	plugins []*pipeline.Plugin
 	kp      *keyPair
@@ -268,6 +270,33 @@ func (t *c19Task) run(op c19Op, sh *c19Shared) (res string) {
 		}
 		sort.Strings(ks)
 		return "sh.tomap " + strings.Join(ks, ",")
+	case "sh.tomaprec":
+		r := ordered.ToMapRecursive(sh.m)
+		b, _ := json.Marshal(r)
+		return "sh.tomaprec " + hashBytes(b)
+	case "sh.wverify":
+		if len(sh.wrapped) == 0 {
+			return "skip"
+		}
+		i := op.arg % len(sh.wrapped)
+		wr, cs := sh.wrapped[i], sh.signed[i]
+		env := map[string]string{}
+		for k, v := range sh.penv {
+			env[k] = v
+		}
+		err := signature.Verify(context.Background(), cs.Signature, sh.kp.pub, wr, signature.WithEnv(env))
+		return fmt.Sprintf("sh.wverify ok=%v", err == nil)
+	case "sh.wsign":
+		if len(sh.wrapped) == 0 {
+			return "skip"
+		}
+		wr := sh.wrapped[op.arg%len(sh.wrapped)]
+		sig, err := signature.Sign(context.Background(), sh.kp.priv, wr, signature.WithEnv(sh.penv))
+		n := -1
+		if sig != nil {
+			n = len(sig.SignedFields)
+		}
+		return fmt.Sprintf("sh.wsign err=%v fields=%d", err != nil, n)
 	case "sh.mapjson":
 		b, err := sh.m.MarshalJSON()
 		return fmt.Sprintf("sh.mapjson err=%v %s", err != nil, b)
@@ -368,6 +397,7 @@ func runC19(c *engine.Ctx) {
 	}
 	tomb1 := p.Draw(2, "cfg:tombstone") == 1
 	reverseFields := p.Draw(2, "cfg:reverse-signed-fields") == 1
+	emptyContainers := p.Draw(2, "cfg:empty-containers-in-shared-wrappers") == 1
 	w := &signWorld{c: c, features: map[string]bool{}, yamlSafe: true, rich: false}
 	// plugin sources never seen before in this process: a package-level cache keyed by source is
 	// only written (and so only races with readers) the first time a source is met
@@ -395,6 +425,8 @@ func runC19(c *engine.Ctx) {
 			sh.m.Set(fmt.Sprintf("s%d", i), fmt.Sprintf("v%d", i))
 		}
 		sh.m.Set("nested", ordered.MapFromItems(ordered.TupleSA{Key: "a", Value: "b"}))
+		sh.m.Set("list", []any{ordered.MapFromItems(ordered.TupleSA{Key: "z", Value: "1"}, ordered.TupleSA{Key: "a", Value: "2"}), "x",
+			[]any{ordered.MapFromItems(ordered.TupleSA{Key: "q", Value: "3"}, ordered.TupleSA{Key: "b", Value: "4"})}})
 		sh.m.Delete("s7") // leave tombstones (fewer than half: no compaction)
 		if tomb1 {
 			sh.m.Delete("s1")
@@ -416,6 +448,20 @@ func runC19(c *engine.Ctx) {
 				}
 				sh.signed = append(sh.signed, cs)
 				sh.plugins = append(sh.plugins, cs.Plugins...)
+				wr := &signature.CommandStepWithInvariants{CommandStep: *cs, RepositoryURL: sh.repo}
+				if emptyContainers {
+					// empty-but-non-nil containers are legal (env: {}, plugins: [], matrix: {})
+					if wr.Env == nil {
+						wr.Env = map[string]string{}
+					}
+					if wr.Plugins == nil {
+						wr.Plugins = pipeline.Plugins{}
+					}
+					if wr.Matrix == nil {
+						wr.Matrix = &pipeline.Matrix{}
+					}
+				}
+				sh.wrapped = append(sh.wrapped, wr)
 			}, 0)
 		}
 		sh.plugins = append(sh.plugins, &pipeline.Plugin{Source: fmt.Sprintf("shared%x#v5.9.0", c.RunSeed&0xfffffff), Config: map[string]any{"image": "alpine"}}, &pipeline.Plugin{Source: fmt.Sprintf("my-org/thing%x", c.RunSeed&0xfffffff)})
@@ -428,7 +474,9 @@ func runC19(c *engine.Ctx) {
 		return
 	}
 	sh := buildShared()
-	dumpShared := func(x *c19Shared) string { return stateDump.Sdump([]any{x.m, x.m2, x.plugins}) + hashBytes([]byte(stateDump.Sdump(x.pl))) }
+	dumpShared := func(x *c19Shared) string {
+		return stateDump.Sdump([]any{x.m, x.m2, x.plugins}) + hashBytes([]byte(stateDump.Sdump(x.pl))) + hashBytes([]byte(stateDump.Sdump(x.wrapped)))
+	}
 
 	// ---- tasks and their programs
 	ntasks := 2 + p.Draw(15, "cfg:ntasks")
@@ -436,7 +484,7 @@ func runC19(c *engine.Ctx) {
 		ntasks = 2 + ntasks%4
 	}
 	private := []string{"interpolate", "json", "yaml", "sign", "verify", "matrix", "ownmap", "ownmap", "keygen", "shuffle-fields"}
-	shared := []string{"sh.get", "sh.range", "sh.equal", "sh.tomap", "sh.mapjson", "sh.mapyaml", "sh.pljson", "sh.plyaml", "sh.fullsource", "sh.verify", "sh.sign"}
+	shared := []string{"sh.get", "sh.range", "sh.equal", "sh.tomap", "sh.tomaprec", "sh.mapjson", "sh.mapyaml", "sh.pljson", "sh.plyaml", "sh.fullsource", "sh.verify", "sh.sign", "sh.wverify", "sh.wsign"}
 	mode := p.Draw(3, "cfg:mix") // 0 mixed, 1 mostly shared, 2 mostly private
 	build := func() []*c19Task {
 		var tasks []*c19Task
